@@ -212,6 +212,25 @@ func (fr *frame) applyContract(ct *FuncContract, f *ssa.Function, sig *types.Sig
 			return x
 		case *Closure:
 			return Term{strconv.Itoa(fc.e.funcTag(fnKey(x.Fn))), SInt}
+		case *VarArgSlice:
+			if t != nil {
+				if st, ok := t.Underlying().(*types.Slice); ok && !isByte(st.Elem()) {
+					es := fc.e.sortOf(st.Elem())
+					a := fmt.Sprintf("((as const %s) %s)", arr(SInt, es), fc.e.zero(es, st.Elem()).S)
+					okAll := true
+					for i, el := range x.Elems {
+						et, isT := el.(Term)
+						if !isT {
+							okAll = false
+							break
+						}
+						a = store(a, strconv.Itoa(i), et.S)
+					}
+					if okAll {
+						return fc.define("lit", Term{fmt.Sprintf("(mkslc %s 0 %d)", a, len(x.Elems)), slc(es)})
+					}
+				}
+			}
 		}
 		return fc.fresh("arg", fc.e.sortOf(t))
 	}
@@ -267,6 +286,14 @@ func (fr *frame) applyContract(ct *FuncContract, f *ssa.Function, sig *types.Sig
 			continue
 		}
 		for _, l := range locs {
+			if l.ref.Sort == "SCALAR" {
+				if fc.c != nil && !fc.modEvery && !fc.modAll[l.arr] {
+					fc.oblig("frame", "frame.call."+cname+"."+l.arr, "false", reach, pos, nil).Src = "callee modifies ghost variable " + l.arr
+				}
+				fc.heapGet(st, l.arr, l.sort)
+				st.heap[l.arr] = fc.fresh(l.arr+"_m", l.sort)
+				continue
+			}
 			fr.frameCheck(st, l.arr, l.ref, reach, pos)
 			a := fc.heapGet(st, l.arr, l.sort)
 			vs := sortArgs(l.sort)[1]
